@@ -6,8 +6,8 @@ import ScyllaVerif.Model.Exec
 * `dec <policy>/<i|n> - <cl>:<err>;<cl>:<err>;…`  — one retry session fed a history; prints its decisions.
 * `runx fallthrough/<i|n> <cl0>/<plan> <err>~<decision>;…;ok` — the fiber under a SCRIPTED retry policy (a test
   `RetryPolicy` answering the i-th failure with the i-th scripted decision).
-* `run <policy>/<i|n> <cl0>/<plan> <outcome>;<outcome>;…` — the execution fiber over `plan` (`1` = the target
-  yields a connection, `0` = choosing a connection fails, `-` = empty plan); outcome `ok` or an error token;
+* `run <policy>/<i|n> <cl0>/<plan> <outcome>;<outcome>;…` — the execution fiber over `plan` (one character per target: `1` =
+  always yields a connection, `0` = never, `d ≥ 2` = only the first d-1 `get_connection()` calls; `-` = empty plan); outcome `ok` or an error token;
   attempts beyond the scripted outcomes succeed.  Prints the attempt log, the decisions, the result, the
   number of sessions created. -/
 namespace ScyllaVerif.Drive.C06
@@ -106,8 +106,16 @@ def parseStep (s : String) : Option (Err × Consistency) :=
 def parseOutcome (s : String) : Option Outcome :=
   if s == "ok" then some .ok else (parseErr s).map .fail
 
-def parsePlan (s : String) : Option (List Bool) :=
-  if s == "-" then some [] else s.toList.mapM (fun c => if c == '1' then some true else if c == '0' then some false else none)
+/-- One character per target: `0` never yields a connection, `1` always, a digit `d ≥ 2` only for the first
+`d-1` `get_connection()` calls. -/
+def parseTarget (c : Char) : Option Target :=
+  if c == '0' then some Target.never
+  else if c == '1' then some Target.always
+  else if '2' ≤ c ∧ c ≤ '9' then some (Target.upTo (c.toNat - 49))
+  else none
+
+def parsePlan (s : String) : Option (List Target) :=
+  if s == "-" then some [] else s.toList.mapM parseTarget
 
 def clOpt : Option Consistency → String
   | none => ""
